@@ -340,11 +340,62 @@ async fn s_lists_and_content(h: &mut Host) -> Result<(), Fail> {
     Ok(())
 }
 
+/// C15 (streaming limit) and C17 (inconsistent control messages) on an open StreamingPull
+async fn s_stream_limits(h: &mut Host) -> Result<(), Fail> {
+    let (t, s) = ("projects/p/topics/sl", "projects/p/subscriptions/sl");
+    h.topic(t).await.map_err(setup("topic"))?;
+    h.sub(s, t, 0, None).await.map_err(setup("sub"))?;
+    h.publish(t, (0..5).map(|i| (vec![i], HashMap::new())).collect()).await.map_err(setup("publish"))?;
+    let open = |max: i64| StreamingPullRequest { subscription: s.to_string(), ack_ids: vec![], modify_deadline_seconds: vec![], modify_deadline_ack_ids: vec![], stream_ack_deadline_seconds: 0, client_id: "c".into(), max_outstanding_messages: max, max_outstanding_bytes: 100_000_000 };
+    // out-of-range limits are rejected
+    for bad in [-1i64, 65536, i64::MAX] {
+        let first = open(bad);
+        let r = h.subscriber.streaming_pull(async_stream::stream! { yield first; }).await;
+        match r {
+            Err(e) if e.code() == Code::InvalidArgument => {}
+            Err(e) => return Err(f("C17+C15", format!("StreamingPull(max_outstanding_messages={}): {:?} instead of INVALID_ARGUMENT", bad, e.code()))),
+            Ok(resp) => {
+                let mut inb = resp.into_inner();
+                match tokio::time::timeout(Duration::from_secs(5), inb.message()).await {
+                    Ok(Err(e)) if e.code() == Code::InvalidArgument => {}
+                    _ => return Err(f("C17+C15", format!("StreamingPull(max_outstanding_messages={}) was not rejected with INVALID_ARGUMENT", bad))),
+                }
+            }
+        }
+    }
+    let (tx, mut rx) = tokio::sync::mpsc::channel::<StreamingPullRequest>(16);
+    let first = open(2);
+    let mut inbound = h.subscriber.streaming_pull(async_stream::stream! { yield first; while let Some(r) = rx.recv().await { yield r; } }).await.map_err(setup("streaming_pull"))?.into_inner();
+    let mut got = 0;
+    while got < 5 {
+        match tokio::time::timeout(Duration::from_secs(15), inbound.message()).await {
+            Ok(Ok(Some(r))) => {
+                if r.received_messages.len() > 2 { return Err(f("C15", format!("a StreamingPull response carries {} messages, max_outstanding_messages = 2", r.received_messages.len()))); }
+                got += r.received_messages.len();
+                let acks = r.received_messages.iter().map(|m| m.ack_id.clone()).collect();
+                tx.send(StreamingPullRequest { subscription: String::new(), ack_ids: acks, modify_deadline_seconds: vec![], modify_deadline_ack_ids: vec![], stream_ack_deadline_seconds: 0, client_id: String::new(), max_outstanding_messages: 0, max_outstanding_bytes: 0 }).await.map_err(setup("send"))?;
+            }
+            _ => return Err(f("C01+C06", format!("an open StreamingPull received only {} of 5 available messages", got))),
+        }
+    }
+    // an inconsistent control message ends the stream with INVALID_ARGUMENT
+    tx.send(StreamingPullRequest { subscription: String::new(), ack_ids: vec![], modify_deadline_seconds: vec![10], modify_deadline_ack_ids: vec![], stream_ack_deadline_seconds: 0, client_id: String::new(), max_outstanding_messages: 0, max_outstanding_bytes: 0 }).await.map_err(setup("send"))?;
+    match tokio::time::timeout(Duration::from_secs(15), inbound.message()).await {
+        Ok(Err(e)) if e.code() == Code::InvalidArgument => {}
+        Ok(Err(e)) => return Err(f("C17", format!("inconsistent StreamingPull control message: {:?} instead of INVALID_ARGUMENT", e.code()))),
+        _ => return Err(f("C17", "inconsistent StreamingPull control message (lengths differ) was not rejected".into())),
+    }
+    // the server keeps serving
+    h.publish(t, vec![(vec![9], HashMap::new())]).await.map_err(|e| f("C17", format!("server no longer serves after a rejected control message: {:?}", e.code())))?;
+    Ok(())
+}
+
 pub fn run_all() -> i32 {
     let scenarios: Vec<(&str, fn(&mut Host) -> std::pin::Pin<Box<dyn std::future::Future<Output = Result<(), Fail>> + '_>>)> = vec![
         ("pull_limits", |h| Box::pin(s_pull_limits(h))),
         ("batches", |h| Box::pin(s_batches(h))),
         ("stream_modack", |h| Box::pin(s_stream_modack(h))),
+        ("stream_limits", |h| Box::pin(s_stream_limits(h))),
         ("namespace", |h| Box::pin(s_namespace(h))),
         ("malformed", |h| Box::pin(s_malformed(h))),
         ("lists_and_content", |h| Box::pin(s_lists_and_content(h))),
